@@ -74,9 +74,11 @@ def r19_2(ctx):
     # pairwise augmentation
     pairs = {}
     for st in walk_no_nested(f.node):
-        if isinstance(st, ast.AugAssign) and isinstance(st.target, ast.Name) and st.target.id in ("inner_args", "call_args") and isinstance(st.value, ast.List) and len(st.value.elts) == 1:
+        # canonical form of `L += [x]` is L.append(x)
+        if isinstance(st, ast.Call) and isinstance(st.func, ast.Attribute) and st.func.attr == "append" and isinstance(st.func.value, ast.Name) \
+                and st.func.value.id in ("inner_args", "call_args") and len(st.args) == 1:
             gs = tuple(ast.unparse(t) for t, p in sc.guards(st) if p)
-            pairs.setdefault(gs, {})[st.target.id] = (ast.unparse(st.value.elts[0]), sc.order[st])
+            pairs.setdefault(gs, {})[st.func.value.id] = (ast.unparse(st.args[0]), sc.order[st])
     want = {("add_xc",): {"inner_args": "self.Xc_vars", "call_args": "self.Xc_vars0"}, ("add_zc",): {"inner_args": "self.Zc_vars_rest", "call_args": "self.Zc0"}}
     for flag, w in want.items():
         got = {k: v[0] for k, v in pairs.get(flag, {}).items()}
